@@ -324,6 +324,27 @@ func checkC05(cx *Ctx, r *Report) {
 		cx.checkVerifier(r, fn, isCrypto)
 	}
 	r.Min("R-VERIFIER", 7)
+	// ValidatePost validates the element it was given (the document root), not an element found by searching for a signature
+	if vp := w.Func("signature.ValidatePost"); vp != nil {
+		pvf := cx.newVFlow("ValidatePost", vp)
+		ls, sites := pvf.CallArgSources(matchCallee("(*github.com/russellhaering/goxmldsig.ValidationContext).Validate"), 1)
+		if len(sites) == 0 {
+			r.Fail("R-VFG", "ValidatePost:validated-element", w.FnPos(vp), "ValidationContext.Validate is not called")
+		} else {
+			r.checkSources("R-VFG", "ValidatePost:validated-element", w.InstrPos(sites[0]), ls, []string{"ext:etreeutils.NSDetatch#0"}, []string{"ext:etreeutils.NSDetatch#0"}, true)
+			ld, ds := pvf.CallArgSources(matchCallee("github.com/russellhaering/goxmldsig/etreeutils.NSDetatch"), 1)
+			if len(ds) > 0 {
+				r.checkSources("R-VFG", "ValidatePost:detached-element", w.InstrPos(ds[0]), ld, []string{"param:signature.ValidatePost/#1"}, []string{"param:signature.ValidatePost/#1"}, true)
+			}
+		}
+	}
+	if vps := w.Func("serviceprovider.(*ServiceProvider).ValidatePostSignature"); vps != nil {
+		pvf := cx.newVFlow("ValidatePostSignature", vps)
+		ls, sites := pvf.CallArgSources(matchFnKey(w, "signature.ValidatePost"), 1)
+		if len(sites) > 0 {
+			r.checkSources("R-VFG", "ValidatePostSignature:root", w.InstrPos(sites[0]), ls, []string{"ext:(*etree.Document).Root#0"}, []string{"ext:(*etree.Document).Root#0"}, true)
+		}
+	}
 	// the verifier closures are what the steps run
 	if k.sigRedirect != nil && k.sigRedirect.Fn("logic") != w.Func("provider.verifyRedirectSignature$1") {
 		r.Fail("R-VERIFIER", "sso:sig-redirect:logic", k.sigRedirect.Pos, "logic of the redirect signature step is not the closure of verifyRedirectSignature")
